@@ -1,9 +1,11 @@
 (* C09  Each JFA training phase is exact EM: its marginal likelihood never decreases.
    Proved here: the D phase in full (any numbers of components, features, classes, sessions) and its
-   scalar core; the V and U phases for rank > 1 need ln det A <= tr A - n (no determinant theory over R
-   is installed) and are validated numerically by the check - see DESIGN.md. *)
+   scalar core; the V phase in full for a rank-1 speaker subspace (the code's e_step_v / m_step_v, any
+   numbers of components, features, classes, sessions); the V and U phases for rank > 1 need
+   ln det A <= tr A - n (no determinant theory over R is installed) and are validated numerically by the
+   check - see DESIGN.md. *)
 From Coq Require Import Reals List.
-From BLE Require Import Num.InstR Model.FA Proofs.RLemmas Proofs.FAEnroll Proofs.JFATrain.
+From BLE Require Import Num.InstR Model.FA Proofs.RLemmas Proofs.FAEnroll Proofs.JFATrain Proofs.JFARank1.
 Import ListNotations FR.
 Open Scope R_scope.
 
@@ -24,3 +26,22 @@ Theorem C09_phase_D_iteration_monotone (C D rU rV : nat) (u : ubm) (F : fa)
   /\ marginal_d D u F (fD F) classes xss ys <= marginal_d D u F (fD F') classes xss ys.
 Proof. exact (phase_d_monotone C D rU rV u F classes xss ys). Qed.
 Print Assumptions C09_phase_D_iteration_monotone.
+
+(* The V phase with a rank-1 speaker subspace: the code's iteration (e_step_v with x = 0, z = 0, then m_step_v with the
+   external inverse used only on 1x1 matrices) IS the exact EM step on the column V, and it never decreases the phase
+   marginal likelihood  sum_i [ b_i^2 / (2 L_i) - 1/2 ln L_i ]  (the scalar speaker factor integrated out). *)
+Theorem C09_phase_V_rank1_iteration_is_the_em_step (inv : list (list R) -> list (list R)) (C D rU : nat) (u : ubm) (F : fa)
+    (classes : list (list gstat)) :
+  inv1_ok inv -> ubm_ok C D u -> fa_ok C D rU 1 F -> Forall (Forall (gstat_ok C D)) classes ->
+  Forall (fun A1c => nth 0 (nth 0 A1c []) 0 <> 0) (fst (acc_v inv rU 1 D u F classes)) ->
+  vcol (fV (jfa_iter_v inv rU 1 D u classes F)) = em_v_step (vcol (fV F)) (vsuper u) (map (class_NG D u) classes).
+Proof. exact (jfa_iter_v_rank1 inv C D rU u F classes). Qed.
+Print Assumptions C09_phase_V_rank1_iteration_is_the_em_step.
+
+Theorem C09_phase_V_rank1_iteration_monotone (inv : list (list R) -> list (list R)) (C D rU : nat) (u : ubm) (F : fa)
+    (classes : list (list gstat)) :
+  inv1_ok inv -> ubm_ok C D u -> fa_ok C D rU 1 F -> Forall (Forall (gstat_ok C D)) classes ->
+  Forall (fun A1c => 0 < nth 0 (nth 0 A1c []) 0) (fst (acc_v inv rU 1 D u F classes)) ->
+  marginal_v D u (fV F) classes <= marginal_v D u (fV (jfa_iter_v inv rU 1 D u classes F)) classes.
+Proof. exact (phase_v_monotone_rank1 inv C D rU u F classes). Qed.
+Print Assumptions C09_phase_V_rank1_iteration_monotone.
